@@ -12,6 +12,8 @@ import (
 	"errors"
 	"fmt"
 	"os"
+	"os/exec"
+	"path/filepath"
 	"runtime"
 	"sort"
 	"strconv"
@@ -21,6 +23,7 @@ import (
 
 	"github.com/restic/restic/internal/archiver"
 	"github.com/restic/restic/internal/data"
+	"github.com/restic/restic/internal/global"
 	"github.com/restic/restic/internal/restic"
 )
 
@@ -368,11 +371,123 @@ func c41Names(rng *vrng) [][]byte {
 	return names
 }
 
+
+// ---------- incomplete but authenticated objects read by the real CLI (subprocess) ----------
+
+func c41CLI(e *venv, args ...string) (code int, panicked bool, first string) {
+	cmd := exec.Command(os.Args[0], append([]string{"-r", e.repo, "--no-cache"}, args...)...)
+	var env []string
+	for _, kv := range os.Environ() {
+		if !strings.HasPrefix(kv, "RESTIC_") {
+			env = append(env, kv)
+		}
+	}
+	cmd.Env = append(env, "RESTIC_PASSWORD="+vPassword)
+	out, err := cmd.CombinedOutput()
+	if ee, ok := err.(*exec.ExitError); ok {
+		code = ee.ExitCode()
+	}
+	panicked = bytes.Contains(out, []byte("panic: ")) && bytes.Contains(out, []byte("goroutine "))
+	first = strings.SplitN(strings.TrimSpace(string(out)), "\n", 2)[0]
+	if i := bytes.Index(out, []byte("panic: ")); i >= 0 {
+		first = strings.SplitN(string(out[i:]), "\n", 2)[0]
+	}
+	return
+}
+
+func c41CrashProbes(c *vctx) error {
+	probe := func(name, kind string, craft func(ctx context.Context, e *venv, good string) (string, error), cmds func(good, bad string) [][]string) error {
+		e := newVenv(c, name)
+		src := filepath.Join(e.base, "src")
+		if err := os.MkdirAll(filepath.Join(src, "d"), 0o755); err != nil {
+			return err
+		}
+		_ = os.WriteFile(filepath.Join(src, "d", "x"), []byte("hello"), 0o644)
+		if _, _, err := e.cli("init"); err != nil {
+			return err
+		}
+		if _, _, err := e.cli("backup", src); err != nil {
+			return err
+		}
+		good, bad := "", ""
+		_, _, err := e.run(func(ctx context.Context, gopts global.Options) error {
+			repo, err := e.openRepo(ctx)
+			if err != nil {
+				return err
+			}
+			_ = repo.List(ctx, restic.SnapshotFile, func(id restic.ID, _ int64) error { good = id.String(); return nil })
+			bad, err = craft(ctx, e, good)
+			return err
+		})
+		if err != nil {
+			return err
+		}
+		crashed := false
+		var report []string
+		for _, args := range cmds(good, bad) {
+			code, panicked, first := c41CLI(e, args...)
+			if panicked {
+				crashed = true
+			}
+			shown := strings.Join(args, " ")
+			shown = strings.ReplaceAll(strings.ReplaceAll(shown, good, "GOOD"), bad, "BAD")
+			report = append(report, fmt.Sprintf("restic %s: exit=%d panic=%v %.70q", shown, code, panicked, first))
+			if panicked {
+				_, _, _ = c41CLI(e, "unlock")
+			}
+		}
+		c.Case(kind, true, 1, fmt.Sprintf("C41m.CNoCrash %s", coqBool(crashed)), fmt.Sprintf("crafted object %.8s; %s", bad, strings.Join(report, "; ")))
+		return nil
+	}
+	// a snapshot document without a tree id
+	if err := probe("snap-no-tree", "snapshot-without-tree", func(ctx context.Context, e *venv, _ string) (string, error) {
+		repo, err := e.openRepo(ctx)
+		if err != nil {
+			return "", err
+		}
+		id, err := repo.SaveUnpacked(ctx, restic.WriteableSnapshotFile, []byte(`{"time":"2020-01-01T00:00:00Z","paths":["/x"],"hostname":"h"}`))
+		return id.String(), err
+	}, func(good, bad string) [][]string {
+		return [][]string{{"snapshots"}, {"ls", bad}, {"check"}, {"prune", "--dry-run"}, {"stats"}, {"copy", "--from-repo", "/nonexistent", bad}, {"repair", "snapshots", "--dry-run"}}
+	}); err != nil {
+		return err
+	}
+	// a directory node without a subtree id
+	if err := probe("dir-no-subtree", "dir-node-without-subtree", func(ctx context.Context, e *venv, _ string) (string, error) {
+		repo, err := e.openRepo(ctx)
+		if err != nil {
+			return "", err
+		}
+		tree := []byte(`{"nodes":[{"name":"d","type":"dir","mode":2147484141,"mtime":"2020-01-01T00:00:00Z","atime":"2020-01-01T00:00:00Z","ctime":"2020-01-01T00:00:00Z","uid":0,"gid":0,"content":null}]}` + "\n")
+		var treeID restic.ID
+		err = repo.WithBlobUploader(ctx, func(ctx context.Context, up restic.BlobSaverWithAsync) error {
+			var err error
+			treeID, _, _, err = up.SaveBlob(ctx, restic.TreeBlob, tree, restic.ID{}, false)
+			return err
+		})
+		if err != nil {
+			return "", err
+		}
+		id, err := repo.SaveUnpacked(ctx, restic.WriteableSnapshotFile, []byte(`{"time":"2020-01-02T00:00:00Z","tree":"`+treeID.String()+`","paths":["/x"],"hostname":"h"}`))
+		return id.String(), err
+	}, func(good, bad string) [][]string {
+		return [][]string{{"ls", bad}, {"diff", good, bad}, {"diff", bad, good}, {"dump", bad, "/d/x"}, {"dump", bad, "/d"}, {"find", "x"}, {"stats", bad}, {"check"}, {"restore", bad, "--target", filepath.Join(filepath.Dir(good), "t"), "--dry-run"}}
+	}); err != nil {
+		return err
+	}
+	return nil
+}
+
 // ---------- engine ----------
 
 func engineC41(c *vctx) error {
 	c.Header("Model.C41m", "C41m.case", "C41m.check_case")
 	c.Preamble("Import C41m.")
+
+	// corpus: incomplete snapshot / tree objects through the real CLI
+	if err := c41CrashProbes(c); err != nil {
+		return err
+	}
 
 	// (a) utf8 kit against the standard library
 	utf8Case := func(s []byte) {
